@@ -5175,6 +5175,8 @@ class DfaCompileCtx:
         Convert the AST into a (potentially optimized) DFA.
         """
 
+        if self.ast is None:
+            raise IllegalASTStateError("The parser contains no match statement")
         self.dfa = self.ast.convert(defaultdict(lambda: self.generic_fail_state))
         self.dfa.add(self.generic_fail_state)
 
